@@ -91,7 +91,10 @@ CHAINS = [
 ]
 
 
-def _named_spec(r, lo, hi, names=NAMED):
+NAMED_WEIGHTED = NAMED + ["VmapMixture", "VmapMixture", "StudentT", "MultivariateNormal", "Exponential", "Uniform", "LogNormal"]
+
+
+def _named_spec(r, lo, hi, names=NAMED_WEIGHTED):
     name = r.choice(list(names))
     dim = r.choice([0, 1, 2, 3]) if name not in ("MultivariateNormal",) else r.choice([1, 2, 3])
     if name == "VmapMixture":
@@ -195,9 +198,9 @@ def _bucket(prop, tier, seed, idx):
             freeze = [{"node": 0, "mode": "fn"}, {"node": 0, "mode": "fn"}, {"node": 0, "mode": "fn"}, {"node": 0, "mode": "fn"}]
     elif prop == "C11":
         u = r.random()
-        if u < 0.35:
+        if u < 0.3:
             spec = _flow_spec(r)
-        elif u < 0.7:
+        elif u < 0.6:
             spec = _direct_spec(r, ["affine", "scale", "triaffine", "vspline", "planar", "chain", "scan_vspline"])
         else:
             wide = r.random() < 0.5
